@@ -3,6 +3,7 @@ package dagh
 import (
 	"context"
 	"encoding/json"
+	"errors"
 	"fmt"
 	"runtime"
 	"strings"
@@ -354,6 +355,178 @@ var freeRerun = &freeProp{ID: "C15", Sub: "stages",
 
 func TestC15_stages(t *testing.T) { freeRerun.run(t) }
 
+// --- C13: a shared Task that fails keeps its dependents from starting in EVERY graph that contains it ---
+
+func checkFreeSharedOrder(c *FreeCase) error {
+	var mu sync.Mutex
+	var viol []string
+	depsOf := map[string][][]int{"g1": c.Deps, "g2": c.Deps2}
+	tasks := make([]*dag.Task, c.N)
+	for i := 0; i < c.N; i++ {
+		i := i
+		tasks[i] = dag.NewTask(taskID(i), func(ctx context.Context, opt *getoptions.GetOpt, args []string) error {
+			// Run hands its args to every task: they name the graph this execution belongs to
+			if len(args) == 1 {
+				for _, d := range depsOf[args[0]][i] {
+					if c.Out[d] != "ok" {
+						mu.Lock()
+						viol = append(viol, fmt.Sprintf("%s entered in graph %s although its dependency %s never returns nil (it returns %s)", taskID(i), args[0], taskID(d), c.Out[d]))
+						mu.Unlock()
+					}
+				}
+			}
+			spin(c.Spin[i])
+			switch c.Out[i] {
+			case "err":
+				return fmt.Errorf("failure of %s", taskID(i))
+			case "skip":
+				return dag.ErrorSkipParents
+			}
+			return nil
+		})
+	}
+	g1 := buildFree("g1", c, c.Deps, tasks)
+	g2 := buildFree("g2", c, c.Deps2, tasks)
+	var wg sync.WaitGroup
+	oks := make([]bool, 2)
+	for k, g := range []*dag.Graph{g1, g2} {
+		wg.Add(1)
+		go func(k int, g *dag.Graph) {
+			defer wg.Done()
+			done := make(chan error, 1)
+			go func() { done <- g.Run(context.Background(), nil, []string{g.Name}) }()
+			select {
+			case <-done:
+				oks[k] = true
+			case <-time.After(30 * time.Second):
+			}
+		}(k, g)
+	}
+	wg.Wait()
+	if !oks[0] || !oks[1] {
+		return fmt.Errorf("inconclusive: Run did not return within 30s")
+	}
+	if len(viol) > 0 {
+		return fmt.Errorf("%s (two graphs over the same Task objects, run concurrently)", viol[0])
+	}
+	return nil
+}
+
+var freeSharedOrder = &freeProp{ID: "C13", Sub: "shared-order",
+	Rule: "free-running: two graphs with independent random edges over the SAME Task objects, run concurrently; about a third of the tasks always fail or return ErrorSkipParents; Run's args name the graph, so every task function checks on entry that none of its direct dependencies in THAT graph is a task that never returns nil; under the race detector; distinct by case",
+	Gen: func(t *rapid.T) *FreeCase {
+		c := genFree(t, []string{"parallel", "parallel", "max", "serial"}, 6, true)
+		c.Out = make([]string, c.N)
+		for i := range c.Out {
+			c.Out[i] = rapid.SampledFrom([]string{"ok", "ok", "ok", "ok", "err", "skip"}).Draw(t, "out")
+		}
+		for i := range c.Spin {
+			if c.Spin[i] < 100 {
+				c.Spin[i] = 1000
+			}
+		}
+		return c
+	},
+	Check: checkFreeSharedOrder,
+}
+
+func TestC13_sharedorder(t *testing.T) { freeSharedOrder.run(t) }
+
+// --- C16: a cycle closed between two Runs of the same graph is rejected by the second Run ---
+
+func checkFreeStagesCycle(c *FreeCase) error {
+	var stage int32 = 1
+	var started2 int32
+	mk := func(id string) *dag.Task {
+		return dag.NewTask(id, func(ctx context.Context, opt *getoptions.GetOpt, args []string) error {
+			if atomic.LoadInt32(&stage) == 2 {
+				atomic.AddInt32(&started2, 1)
+			}
+			return nil
+		})
+	}
+	tasks := make([]*dag.Task, c.N)
+	for i := 0; i < c.N; i++ {
+		tasks[i] = mk(taskID(i))
+	}
+	g := buildFree("stages", c, c.Deps, tasks)
+	err, ok := runBounded(g)
+	if !ok {
+		return fmt.Errorf("inconclusive: first Run did not return within 30s")
+	}
+	if err != nil {
+		return fmt.Errorf("first Run returned %v for an all-successful acyclic graph", err)
+	}
+	atomic.StoreInt32(&stage, 2)
+	// Stage2 new tasks form a chain; the chain depends on old task `a` and old task `b` depends on the chain.
+	// That closes a cycle exactly when a (transitively) depends on b, or a == b.
+	a, b := c.Max2%c.N, (c.Max2/c.N)%c.N
+	var chain []*dag.Task
+	for k := 0; k < c.Stage2; k++ {
+		chain = append(chain, mk(fmt.Sprintf("stage2-%02d", k)))
+		g.AddTask(chain[k])
+		if k > 0 {
+			g.TaskDependsOn(chain[k], chain[k-1])
+		}
+	}
+	g.TaskDependsOn(chain[0], tasks[a])
+	g.TaskDependsOn(tasks[b], chain[len(chain)-1])
+	reach := func(from, to int) bool {
+		seen := map[int]bool{}
+		var rec func(x int) bool
+		rec = func(x int) bool {
+			if x == to {
+				return true
+			}
+			if seen[x] {
+				return false
+			}
+			seen[x] = true
+			for _, d := range c.Deps[x] {
+				if rec(d) {
+					return true
+				}
+			}
+			return false
+		}
+		return rec(from)
+	}
+	cyc := reach(a, b)
+	err, ok = runBounded(g)
+	if !ok {
+		return fmt.Errorf("second Run (cycle closed between the runs: %v) did not return within 30s: Run must always finish", cyc)
+	}
+	if cyc {
+		if !errors.Is(err, dag.ErrorGraphHasCycle) {
+			return fmt.Errorf("between two Runs %d tasks were added that close a dependency cycle through tasks completed by the first Run (%s -> new chain -> %s); the second Run returned %v, want ErrorGraphHasCycle", c.Stage2, taskID(b), taskID(a), err)
+		}
+		if n := atomic.LoadInt32(&started2); n != 0 {
+			return fmt.Errorf("the second Run started %d task(s) although the graph has a dependency cycle", n)
+		}
+		return nil
+	}
+	if err != nil {
+		return fmt.Errorf("second Run of an acyclic graph returned %v", err)
+	}
+	if n := atomic.LoadInt32(&started2); int(n) != c.Stage2 {
+		return fmt.Errorf("second Run started %d task functions, want the %d tasks added after the first Run (each once, completed tasks not again)", n, c.Stage2)
+	}
+	return nil
+}
+
+var freeStagesCycle = &freeProp{ID: "C16", Sub: "stages-cycle",
+	Rule: "free-running: a random acyclic graph is Run (all tasks succeed), then a chain of 1-3 new tasks is added that depends on an old task a while an old task b is made to depend on the chain, and the graph is Run again: when a reaches b this closes a cycle through completed vertices and the second Run must return ErrorGraphHasCycle without starting anything, otherwise it must run exactly the new tasks; distinct by case",
+	Gen: func(t *rapid.T) *FreeCase {
+		c := genFree(t, []string{"parallel", "max", "serial"}, 6, false)
+		c.Stage2 = rapid.IntRange(1, 3).Draw(t, "stage2")
+		c.Max2 = rapid.IntRange(0, c.N*c.N-1).Draw(t, "ab")
+		return c
+	},
+	Check: checkFreeStagesCycle,
+}
+
+func TestC16_stagescycle(t *testing.T) { freeStagesCycle.run(t) }
+
 type freeProp struct {
 	ID, Sub, Rule string
 	Gen           func(t *rapid.T) *FreeCase
@@ -595,6 +768,8 @@ func init() {
 	freeCounter.register()
 	freeShared.register()
 	freeRerun.register()
+	freeSharedOrder.register()
+	freeStagesCycle.register()
 }
 
 func TestC13_free(t *testing.T)        { freeOrder.run(t) }
